@@ -24,15 +24,57 @@ def prop_of(path):
     return os.path.basename(path).split("-")[0]
 
 
+JOBS = int(os.environ.get("SELFTEST_JOBS", "6"))
+
+
+def run_all(jobs):
+    """jobs: [(label, argv)] -> {label: CompletedProcess}; each of JOBS parallel workers uses a fact / cargo cache of its own under /tmp
+    (extractions that share a cargo target directory are serialised by a lock, which would serialise the whole run)."""
+    import queue
+    import threading
+    from concurrent.futures import ThreadPoolExecutor
+    caches = queue.Queue()
+    for k in range(JOBS):
+        caches.put("/tmp/selftest-cache-%d" % k)
+    out = {}
+    lock = threading.Lock()
+
+    def one(job):
+        label, argv, extra_env = job
+        c = caches.get()
+        try:
+            env = dict(os.environ, VERIF_CACHE=c, **extra_env)
+            r = subprocess.run(argv, cwd=VERIF, stdout=subprocess.PIPE, stderr=subprocess.STDOUT, text=True, env=env)
+        finally:
+            caches.put(c)
+        with lock:
+            out[label] = r
+    with ThreadPoolExecutor(max_workers=JOBS) as ex:
+        list(ex.map(one, jobs))
+    return out
+
+
 def main():
     pats = sys.argv[1:]
+    if "--keep-cache" in pats:
+        pats.remove("--keep-cache")
+        keep = True
+    else:
+        keep = False
     items = sorted(glob.glob(os.path.join(VERIF, "seeded", "*", "patch.diff"))) + sorted(glob.glob(os.path.join(VERIF, "mutants", "*.patch")))
     if pats:
         items = [i for i in items if any(p in i for p in pats)]
     bad = 0
+    WP = os.path.join(VERIF, "tools", "with_patch.sh")
+    ctrls = sorted(glob.glob(os.path.join(VERIF, "controls", "*.patch")))
+    if pats:
+        ctrls = [c for c in ctrls if any(p in c for p in pats)]
+    jobs = [(("seed", it), [WP, it, "check", prop_of(it)], {}) for it in items]
+    jobs += [(("ctl", it, prop), [WP, it, "check", prop], {}) for it in ctrls for prop in os.path.basename(it).split("-")[0].split("+")]
+    results = run_all(jobs)
     for it in items:
         prop = prop_of(it)
-        r = subprocess.run([os.path.join(VERIF, "tools", "with_patch.sh"), it, "check", prop], stdout=subprocess.PIPE, stderr=subprocess.STDOUT, text=True)
+        r = results[("seed", it)]
         fired = r.returncode == 1 and "VIOLATION property=%s" % prop in r.stdout
         rules = sorted({l.split("]")[0].strip("[").split()[0] for l in r.stdout.splitlines() if l.startswith("[C") and "tier=" not in l})
         name = os.path.relpath(it, VERIF)
@@ -40,13 +82,10 @@ def main():
         if not fired:
             bad += 1
     # negative controls: behaviour-preserving rewrites of reviewed code; the named checks must stay silent
-    ctrls = sorted(glob.glob(os.path.join(VERIF, "controls", "*.patch")))
-    if pats:
-        ctrls = [c for c in ctrls if any(p in c for p in pats)]
     for it in ctrls:
         props = os.path.basename(it).split("-")[0].split("+")
         for prop in props:
-            r = subprocess.run([os.path.join(VERIF, "tools", "with_patch.sh"), it, "check", prop], stdout=subprocess.PIPE, stderr=subprocess.STDOUT, text=True)
+            r = results[("ctl", it, prop)]
             ok = r.returncode == 0 and "VIOLATION" not in r.stdout
             print("%-70s %s  %s" % (os.path.relpath(it, VERIF), prop, "silent (as required)" if ok else "FALSE ALARM"))
             if not ok:
@@ -61,6 +100,9 @@ def main():
             if not ok:
                 bad += 1
         subprocess.run(["rm", "-rf", "/tmp/selftest-ev"])
+    if not keep:
+        for k in range(JOBS):
+            subprocess.run(["rm", "-rf", "/tmp/selftest-cache-%d" % k])
     print("selftest: %d problem(s)" % bad)
     return 1 if bad else 0
 
